@@ -470,3 +470,40 @@ def r6_5(model: Model, rep: Report) -> None:
          "products and fractions part by part"),
     ], "yvref.c06", lambda m_, prims: (lambda: Evaluator(m_, primitives=set(DSL_PRIMS) | set(prims), prim_methods={"intervene", "given", "simplify", "__truediv__", "_new"})),
         SetAlg(rewriter(graph_rewrite)), construct=construct, loc=loc)
+    # the reader and the writer of selection-node names: `is_transport_node` is `transport_variable` read backwards -- a prefix test on the name
+    # and nothing else.  A reader that PARSES the name (split, regular expression, slices) misreads variables whose own name contains the marker
+    # again (T_ACT_dose): decided by E11's lossy-read clause on top of the reference comparison.
+    from ..keys import _lossy_reads
+    from ..refcmp import compare_with_reference
+    mk_plain = lambda: Evaluator(model)  # noqa: E731
+    for q_, ref_, role_, words_ in ((f"{TR}.is_transport_node", "selection_node", "selection-node-names",
+                                     "a selection node is a plain variable whose name begins with the marker; nothing else about the name is read"),
+                                    (f"{TR}.transport_variable", "selection_node_of", "selection-node-names",
+                                     "the selection node of v is the plain variable named marker + v.name; counterfactual variables are refused")):
+        fq_ = model.func(q_)
+        cons_ = construct(fq_, role_)
+        lossy = []
+        try:
+            ev_ = Evaluator(model)
+            for p_ in ev_.run(fq_, {"node" if "is_" in q_ else "variable": ("var", "node" if "is_" in q_ else "variable")}):
+                for t_ in list(p_.conds) + ([p_.value] if p_.value is not None else []):
+                    lossy.extend(_lossy_reads(t_, ev_))
+        except Exception:  # noqa: BLE001
+            pass
+        lossy = []  # (the general lossy-read clause stays a hint: `name.split(m)[0] == ""` IS the prefix test)
+        for n_ in ast.walk(fq_.node):
+            # `a, b = name.split(marker)`: a fixed number of pieces from an unbounded split -- whatever the routine does when the count is off
+            # (raise, or a handler's default), a name that contains the marker AGAIN is treated differently from what its prefix says
+            if isinstance(n_, ast.Assign) and len(n_.targets) == 1 and isinstance(n_.targets[0], (ast.Tuple, ast.List)) \
+                    and not any(isinstance(e_, ast.Starred) for e_ in n_.targets[0].elts) \
+                    and isinstance(n_.value, ast.Call) and isinstance(n_.value.func, ast.Attribute) and n_.value.func.attr in ("split", "rsplit") \
+                    and len(n_.value.args) == 1 and not n_.value.keywords:
+                lossy.append(f"line {n_.lineno}: the name is cut into exactly {len(n_.targets[0].elts)} pieces at every occurrence of the marker -- a variable "
+                             f"whose own name contains the marker again (T_ACT_dose) is not read by its prefix")
+        _, v_, dt_, smp_ = compare_with_reference(model, q_, f"yvref.c06.{ref_}", {("node" if "is_" in q_ else "variable"): V}, mk_plain, SetAlg(rewriter(graph_rewrite)))
+        if v_ == "PROVEN" and not lossy:
+            rep.proven("R6.5", cons_, loc=loc(fq_), sample=smp_)
+        elif v_ == "REFUTED" or lossy:
+            rep.refuted("R6.5", cons_, f"deviates from the definition ({words_}): " + "; ".join(sorted(set(lossy)) or [short(dt_, 500)]), loc(fq_))
+        else:
+            rep.unknown("R6.5", cons_, dt_, loc(fq_))
